@@ -37,6 +37,9 @@ def linecol(text, offset, starts=None):
 
 def offset_of(text, line, col, starts=None):
     starts = starts if starts is not None else line_starts(text)
-    if line < 1 or line > len(starts):
+    if line < 1 or line > len(starts) or col < 1:
         return None
-    return starts[line - 1] + col - 1
+    off = starts[line - 1] + col - 1
+    if line < len(starts) and off >= starts[line]:
+        return None                      # the column lies beyond the end of that line
+    return off
